@@ -494,23 +494,22 @@ def lemma_set_keys2(t0: A[int, 2], v0: A[xfloat, 1], t1: A[int, 2], t2: A[int, 2
 def lemma_set_inj2(t0: A[int, 2], v0: A[xfloat, 1], t1: A[int, 2], t2: A[int, 2], v2: A[xfloat, 1], array: A[int, 1], E0: int, E1: int, EV0: int, EV2: int, vidx: int, L: int, MS: int):
     requires(PERKEY(t0, t1, t2, array, E1, EV0, vidx, L), KEYS0I(t1, L), AMINJ((t0, v0, L, E0, EV0, MS)), L >= 1, vidx >= 0)
     ensures(AMINJ((t2, v2, L, E1, EV2, MS)))
-    with forall_intro_arr1(k1, forall_arr1(lambda k2: forall(0, L + 1, lambda i1: forall(0, L + 1, lambda i2: implies(NODE(t2, k1, i1) >= 0 and NODE(t2, k1, i1) == NODE(t2, k2, i2), i1 == i2 and AGREE(k1, k2, i1)))) and implies(VIDX(t2, k1, L) >= 0 and VIDX(t2, k1, L) == VIDX(t2, k2, L), AGREE(k1, k2, L)))):
-        with forall_intro_arr1(k2, forall(0, L + 1, lambda i1: forall(0, L + 1, lambda i2: implies(NODE(t2, k1, i1) >= 0 and NODE(t2, k1, i1) == NODE(t2, k2, i2), i1 == i2 and AGREE(k1, k2, i1)))) and implies(VIDX(t2, k1, L) >= 0 and VIDX(t2, k1, L) == VIDX(t2, k2, L), AGREE(k1, k2, L))):
-            instantiate(PERKEY(t0, t1, t2, array, E1, EV0, vidx, L), k1)
-            instantiate(PERKEY(t0, t1, t2, array, E1, EV0, vidx, L), k2)
-            instantiate(KEYS0I(t1, L), k1, k2)
-            instantiate(AMINJ((t0, v0, L, E0, EV0, MS)), k1, k2)
-            # node part: the paths of t2 are those of t1
-            with forall_intro(i1, 0, L + 1, forall(0, L + 1, lambda i2: implies(NODE(t2, k1, i1) >= 0 and NODE(t2, k1, i1) == NODE(t2, k2, i2), i1 == i2 and AGREE(k1, k2, i1)))):
-                with forall_intro(i2, 0, L + 1, implies(NODE(t2, k1, i1) >= 0 and NODE(t2, k1, i1) == NODE(t2, k2, i2), i1 == i2 and AGREE(k1, k2, i1))):
-                    assert_(NODE(t2, k1, i1) == NODE(t1, k1, i1) and NODE(t2, k2, i2) == NODE(t1, k2, i2))
-            # value part: a shared value slot is either the new one (both keys agree with array) or an old one
-            if VIDX(t2, k1, L) >= 0 and VIDX(t2, k1, L) == VIDX(t2, k2, L):
-                if AGREE(k1, array, L):
-                    assert_(AGREE(k2, array, L))
-                else:
-                    assert_(not AGREE(k2, array, L))
-                    assert_(VIDX(t0, k1, L) == VIDX(t0, k2, L))
+    with generalize(AMINJ((t2, v2, L, E1, EV2, MS)), k1, k2):
+        instantiate(PERKEY(t0, t1, t2, array, E1, EV0, vidx, L), k1)
+        instantiate(PERKEY(t0, t1, t2, array, E1, EV0, vidx, L), k2)
+        instantiate(KEYS0I(t1, L), k1, k2)
+        instantiate(AMINJ((t0, v0, L, E0, EV0, MS)), k1, k2)
+        # node part: the paths of t2 are those of t1
+        with forall_intro(i1, 0, L + 1, forall(0, L + 1, lambda i2: implies(NODE(t2, k1, i1) >= 0 and NODE(t2, k1, i1) == NODE(t2, k2, i2), i1 == i2 and AGREE(k1, k2, i1)))):
+            with forall_intro(i2, 0, L + 1, implies(NODE(t2, k1, i1) >= 0 and NODE(t2, k1, i1) == NODE(t2, k2, i2), i1 == i2 and AGREE(k1, k2, i1))):
+                assert_(NODE(t2, k1, i1) == NODE(t1, k1, i1) and NODE(t2, k2, i2) == NODE(t1, k2, i2))
+        # value part: a shared value slot is either the new one (both keys agree with array) or an old one
+        if VIDX(t2, k1, L) >= 0 and VIDX(t2, k1, L) == VIDX(t2, k2, L):
+            if AGREE(k1, array, L):
+                assert_(AGREE(k2, array, L))
+            else:
+                assert_(not AGREE(k2, array, L))
+                assert_(VIDX(t0, k1, L) == VIDX(t0, k2, L))
 
 
 @lemma(shared=True)
